@@ -66,7 +66,9 @@ def _group(items, i, is_root, emptypos):
                     raise Err(j)
                 return ('T', label, word), j + 1
             if cls == ')':
-                raise Err(j)
+                if not emptypos:
+                    raise Err(j)
+                return ('T', None, label), j + 1
         if cls == '(':
             kids, j = _children(items, j, emptypos)
             return ('N', label, kids), j
